@@ -270,8 +270,48 @@ let inv file =
   Printf.printf "INVSUMMARY cases=%d states=%d failures=%d\n" !cases !states !bad;
   if !bad > 0 then exit 1
 
+(* evaluate the candidate C02 invariant (RcSnapInv.rc_snapinv) on every micro state of every rc case *)
+let snapinv file =
+  let ic = open_in file in
+  let cases = ref 0 and states = ref 0 and steps = ref 0 and bad = ref 0 in
+  let classes = Hashtbl.create 7 in
+  (try
+     while true do
+       let line = input_line ic in
+       if String.length line > 3 && String.sub line 0 3 = "rc " then begin
+         match split_on "|" line with
+         | [hd; sch; obs] ->
+           let hd_toks = String.split_on_char ' ' hd |> List.filter (fun x -> x <> "") in
+           let prog = List.map BZ.of_string (List.tl hd_toks) in
+           let sched = ints_of sch in
+           let want = List.map ints_of (split_on ";" obs) in
+           let cp = List.map coq_of_z prog and cs = List.map coq_of_z sched and cw = List.map (List.map coq_of_z) want in
+           let got = rc_snapinv cp cs cw in
+           incr cases;
+           let stop = ref false in
+           List.iteri (fun i v ->
+               incr steps;
+               match List.map z_of_coq v with
+               | [c; n] ->
+                 states := !states + BZ.to_int n;
+                 if not (BZ.equal c BZ.zero) && not !stop then begin
+                   incr bad; stop := true;
+                   let cls = BZ.to_int c / 1000 in
+                   Hashtbl.replace classes cls (1 + try Hashtbl.find classes cls with Not_found -> 0);
+                   if !bad <= 15 then Printf.printf "SNAPINVFAIL case %d step %d code %s\n" !cases i (BZ.to_string c)
+                 end
+               | _ -> ()) got
+         | _ -> ()
+       end
+     done
+   with End_of_file -> ());
+  close_in ic;
+  Hashtbl.iter (fun k v -> Printf.printf "CLASS %d cases=%d\n" k v) classes;
+  Printf.printf "SNAPINVSUMMARY cases=%d steps=%d microstates=%d failing_cases=%d\n" !cases !steps !states !bad
+
 let () =
   match Array.to_list Sys.argv with
+  | _ :: "snapinv" :: file :: _ -> snapinv file
   | _ :: "inv" :: file :: _ -> inv file
   | _ :: "pure" :: file :: _ -> pure file
   | _ :: "conc" :: file :: _ -> conc file
